@@ -114,6 +114,11 @@ int main(int argc, char **argv) {
                 delete seg;
             }
         }
+        else if (w.size() == 2 && w[0] == "jsize") {
+            // jsize <levels> : the stride of the justification records and the two sizes it is made of
+            snprintf(buf, sizeof buf, "size_of=%zu rec=%zu ptr=%zu params=%d", SlotJustify::size_of(size_t(atoi(w[1].c_str()))), sizeof(SlotJustify), sizeof(SlotJustify *), int(SlotJustify::NUMJUSTPARAMS));
+            out = buf;
+        }
         else if (w.size() >= 2 && w[0] == "lines") {
             // lines <n> <op>... : gr_slot_linebreak_before / Segment::addLineEnd / delLineEnd on a hand-built segment
             int n = atoi(w[1].c_str());
